@@ -107,8 +107,8 @@ def gen_history(rng, tier, ity, big=False):
             v = rng.randrange(1, 6)
         elif kind == "heavy":
             v = 2 ** rng.randrange(0, 12) if rng.random() < 0.3 else rng.randrange(1, 4)
-        elif kind == "big":
-            v = rng.randrange(1, 2**40)
+        elif kind == "big":       # totals stay exact: < 2^53 quarter units in double, < 2^64 in uint64 (merges at most double them 12 times)
+            v = rng.randrange(1, 2**26 if wty == "f64" else 2**40)
         else:
             v = rng.randrange(0, 4)
         if wty == "f64":
@@ -127,6 +127,7 @@ def gen_history(rng, tier, ity, big=False):
     zipf = [1.0 / (i + 1) ** 1.2 for i in range(len(items))]
     cursor = 0
     heavy = rng.sample(items, min(3, len(items)))
+    nmerge = [0]
 
     def qlines(s):
         ql = []
@@ -167,7 +168,8 @@ def gen_history(rng, tier, ity, big=False):
             if rng.random() < 0.02 and wty != "u64":
                 wt = rng.choice(["-1", "-5"]) if wty == "i64" else rng.choice(["bff0000000000000", "7ff8000000000000", "7ff0000000000000"])
             h.append("upd %d %s %s" % (s, it, wt))
-        elif r < 0.95 and len(live) > 1:
+        elif r < 0.95 and len(live) > 1 and nmerge[0] < 9:
+            nmerge[0] += 1
             d = rng.choice(live)
             src = rng.choice(live) if rng.random() < 0.1 else rng.choice([x for x in live if x != d])
             h.append("merge %d %d" % (d, src))
